@@ -2,7 +2,7 @@
 import calendar
 from datetime import datetime
 
-from ..gen.common import MA, MN, rng
+from ..gen.common import MA, MN, WN, rng
 from ..hooks import AnchorCounter
 from ..monitors import PathTap
 from ..util import iso, parse_iso
@@ -12,7 +12,8 @@ RULE = ("(a) last-day rule: 'Month YYYY' with PREFER_DAY_OF_MONTH=last for every
         "evidence (quick: 400 years covering every century/leap class; thorough: all years 1..9999 = exhaustive); "
         "(b) reference days 28-31/Feb 29 and uniform x target months x all 9 preference pairs x {Month YYYY, Mon YYYY, "
         "MM/YYYY, YYYY, full date, full date + time} x RETURN_TIME_AS_PERIOD; (c) custom formats %B %Y, %m/%Y, %Y, %b %y "
-        "with first/last. Oracle: day = 1 | monthrange | min(ref.day, monthrange); month = 1 | 12 | ref.month; full dates "
+        "with first/last and four full-date formats, alone or inside a list with 0-2 non-matching formats of other completeness "
+        "before and after. Oracle: day = 1 | monthrange | min(ref.day, monthrange); month = 1 | 12 | ref.month; full dates "
         "unchanged; period by construction. non-trivial distinct = distinct (string, reference, preferences) accepted "
         "by the anchored parser (path tap).")
 ASSUMPTIONS = ["custom-format path: PREFER_DAY_OF_MONTH='current' takes the system clock's day there (the statement "
@@ -23,6 +24,10 @@ ANCHORS = [("dateparser.utils", "set_correct_day_from_settings"), ("dateparser.u
            ("dateparser.parser", "_parser._get_datetime_obj"), ("dateparser.parser", "_parser._get_period"),
            ("dateparser.date", "parse_with_formats")]
 PREFS = ["first", "last", "current"]
+FULL_FMTS = ["%d %B %Y", "%Y-%m-%d", "%d/%m/%Y %H:%M", "%A, %d %B %Y"]
+# formats offered beside the matching one (kept only when Python's own strptime rejects the string under them): an earlier or
+# later non-matching format of different completeness must not influence the completion or the period
+DECOYS = ["%B %Y", "%Y", "%m/%Y", "%d.%m.%Y", "%H:%M", "%b %y", "%d %B", "%Y/%m/%d %H:%M:%S", "%B", "%d-%m-%Y", "%A", "%j %Y"]
 N_RANDOM = {"quick": 36000, "thorough": 600000}
 
 
@@ -68,6 +73,12 @@ def expected(c):
         return "%d %s %04d 10:15" % (d, MN[m - 1], y), datetime(y, m, d, 10, 15), "time" if rtp else "day", None
     # custom-format path
     fmt = c["fmt"]
+    if fmt in FULL_FMTS:
+        hh, mi = (10, 15) if "%H" in fmt else (0, 0)
+        dt = datetime(y, m, d, hh, mi)
+        s = (fmt.replace("%d", "%02d" % d).replace("%B", MN[m - 1]).replace("%Y", "%04d" % y).replace("%m", "%02d" % m)
+             .replace("%H", "10").replace("%M", "15").replace("%A", WN[dt.weekday()]))
+        return s, dt, "day", fmt
     if fmt == "%Y":
         s = "%04d" % y
         em = {"first": 1, "last": 12}[pm]
@@ -80,6 +91,14 @@ def expected(c):
     return s, datetime(y, m, {"first": 1, "last": calendar.monthrange(y, m)[1]}[pd]), "month", fmt
 
 
+def _matches(s, f):
+    try:
+        datetime.strptime(s, f)
+        return True
+    except ValueError:
+        return False
+
+
 def check_case(ctx, c):
     from dateparser.date import DateDataParser
 
@@ -89,7 +108,12 @@ def check_case(ctx, c):
         st["RETURN_TIME_AS_PERIOD"] = True
     PathTap.reset()
     try:
-        dd = DateDataParser(languages=["en"], settings=st).get_date_data(s, [fmt] if fmt else None)
+        fmts = None
+        if fmt:
+            fmts = [f for f in c.get("decoys_before", []) if not _matches(s, f)] + [fmt] + \
+                   [f for f in c.get("decoys_after", []) if not _matches(s, f)]
+            ctx.count("fmt_list_len:%d" % len(fmts))
+        dd = DateDataParser(languages=["en"], settings=st).get_date_data(s, fmts)
         got = (dd["date_obj"], dd["period"])
     except Exception as e:
         got = (e, None)
@@ -131,10 +155,15 @@ def gen_random(rnd):
     if kind in ("full", "full_iso", "full_time"):
         c["d"] = rnd.choice([calendar.monthrange(y, m)[1], rnd.randrange(1, calendar.monthrange(y, m)[1] + 1)])
     if kind == "fmt":
-        c["fmt"] = rnd.choice(["%B %Y", "%m/%Y", "%Y", "%b %y"])
+        c["fmt"] = rnd.choice(["%B %Y", "%m/%Y", "%Y", "%b %y"] + FULL_FMTS)
         c["pd"], c["pm"] = rnd.choice(["first", "last"]), rnd.choice(["first", "last"])
-        if c["fmt"] == "%Y" and y < 1000:
-            c["y"] = y + 1000
+        if (c["fmt"] == "%Y" or c["fmt"] in FULL_FMTS) and y < 1000:
+            c["y"] = y = y + 1000
+        if c["fmt"] in FULL_FMTS:
+            c["d"] = rnd.choice([calendar.monthrange(y, m)[1], rnd.randrange(1, calendar.monthrange(y, m)[1] + 1)])
+        if rnd.random() < 0.6:
+            c["decoys_before"] = rnd.sample(DECOYS, rnd.randrange(0, 3))
+            c["decoys_after"] = rnd.sample(DECOYS, rnd.randrange(0, 3))
     return c
 
 
